@@ -16,7 +16,8 @@ RULE = ("random operation histories (memoize with/without key override, get, rea
         "on filesystem / filesystem+4KiB cache / filesystem+1MiB cache+separate metadata path / "
         "memory back-ends in lock-step, in a named and in the default cluster; thorough adds every "
         "history of length<=3 over a reduced alphabet; a history is non-trivial when at least one read "
-        "was served a value and at least one forget removed a live entry; distinct = distinct op lists")
+        "was served a value and at least one forget removed a live entry; distinct = distinct op lists"
+        '; also: recorded failures and partitions with equal values as values, reads through the memento of an earlier write, one metadata key written both ways')
 ASSUMPTIONS = [
     "answers are compared up to representation: truthiness of is_memoized, sets of qualified names / "
     "arg hashes for listings, type-aware value equality for results",
